@@ -27,7 +27,7 @@ type FuncResult struct {
 func genFunc(w *World, fi *FuncInfo, mode string) (res *FuncResult) {
 	th := newTheory(w.Externs)
 	fv := &FuncVC{w: w, fi: fi, th: th, info: fi.Pkg.TypesInfo, counters: map[string]int{}, heapSort: map[string]Sort{},
-		usedExterns: map[string]bool{}, unknownCalls: map[string]bool{}, mode: mode, calledContracts: map[string]bool{}}
+		usedExterns: map[string]bool{}, unknownCalls: map[string]bool{}, mode: mode, calledContracts: map[string]bool{}, freshRefs: map[string]bool{}}
 	res = &FuncResult{FI: fi, Th: th, Mode: mode}
 	defer func() {
 		if r := recover(); r != nil {
